@@ -9,7 +9,7 @@
 //@ harness: name=c24_index_selection playback=1 props=C24 cap=600 cost=30 sym="idx: any u32" bound="array of 2 elements; non-array shapes 7, \"s\", null"
 //@ harness: name=c24_accessor_number playback=1 props=C24 cap=600 cost=30 sym="u: any u64; n: any i64; x: any f64" bound="none"
 //@ harness: name=c24_select_by_number_accessor playback=1 props=C24 cap=900 cost=60 sym="accessor number: any u64" bound="array of 2 elements"
-//@ harness: name=c24_field_selection playback=1 props=C24 cap=1800 cost=200 sym="field name chosen among a, b, zz, empty" bound="object {a:1,b:[5]} and non-object shapes"
+//@ harness: name=c24_field_selection playback=1 props=C24 tier=thorough core=0 cap=3000 cost=200 sym="field name chosen among a, b, zz, empty" bound="object {a:1,b:[5]} and non-object shapes"
 //@ harness: name=c24_lens_vacuity playback=1 props=C24 expect=fail cap=600 cost=30 sym="idx: any u32" bound="array of 2"
 
 use super::*;
@@ -51,7 +51,12 @@ fn index_body(twin: bool) {
     kani::assert(matches!(&r1, Err(LambdaError::ArrayAccessorNotMatchValue { .. })), "C24: number is not indexable");
     kani::assert(matches!(&r2, Err(LambdaError::ArrayAccessorNotMatchValue { .. })), "C24: string is not indexable");
     kani::assert(matches!(&r3, Err(LambdaError::ArrayAccessorNotMatchValue { .. })), "C24: null is not indexable");
-    std::mem::forget((r1, r2, r3, seven, s, a));
+    std::mem::forget(r1);
+    std::mem::forget(r2);
+    std::mem::forget(r3);
+    std::mem::forget(seven);
+    std::mem::forget(s);
+    std::mem::forget(a);
 }
 
 #[kani::proof]
@@ -93,7 +98,10 @@ fn c24_accessor_number() {
     kani::assert(matches!(&bad, Err(LambdaError::StreamAccessorHasInvalidType { .. })), "C24: a string is not a stream index");
     kani::cover!(u == u32::MAX as u64, "u32::MAX accepted");
     kani::cover!(u == u32::MAX as u64 + 1, "u32::MAX + 1 rejected");
-    std::mem::forget((ru, rn, as_idx, bad));
+    std::mem::forget(ru);
+    std::mem::forget(rn);
+    std::mem::forget(as_idx);
+    std::mem::forget(bad);
 }
 
 #[kani::proof]
@@ -114,7 +122,11 @@ fn c24_select_by_number_accessor() {
     kani::assert(matches!(&rn, Err(LambdaError::ScalarAccessorHasInvalidType { .. })), "C24: null accessor rejected");
     kani::cover!(r.is_ok(), "selected");
     kani::cover!(u > u32::MAX as u64, "accessor beyond u32");
-    std::mem::forget((r, rb, rn, a, acc));
+    std::mem::forget(r);
+    std::mem::forget(rb);
+    std::mem::forget(rn);
+    std::mem::forget(a);
+    std::mem::forget(acc);
 }
 
 #[kani::proof]
@@ -146,5 +158,11 @@ fn c24_field_selection() {
     kani::assert(matches!(&r_idx, Err(LambdaError::ArrayAccessorNotMatchValue { .. })), "C24: an object has no indices");
     kani::cover!(r.is_ok() && which == 1, "member b selected");
     kani::cover!(r.is_err(), "absent member");
-    std::mem::forget((r, by_acc, r_arr, r_idx, obj, arr, inner));
+    std::mem::forget(r);
+    std::mem::forget(by_acc);
+    std::mem::forget(r_arr);
+    std::mem::forget(r_idx);
+    std::mem::forget(obj);
+    std::mem::forget(arr);
+    std::mem::forget(inner);
 }
